@@ -69,11 +69,13 @@ RecvCases ==
         "{\"type\":\"http\",\"data\":{\"url\":\"::\"}}", "{\"type\":\"poll\",\"data\":{\"group\":\"default\",\"id\":\"@SID@\"}}",
         "\"poll://default/@SID@\"", "\"%zz\"", "{\"type\":123}"}}
 CronCases ==
-  {[raw |-> r, expect |-> "4xx"] : r \in {Absent, "null", "\"\"", "123", "\"* * *\"", "\"bogus\"", "\"61 * * * * *\""}}
-  \cup {[raw |-> r, expect |-> "ok"] : r \in {"\"* * * * * *\"", "\"@every 1s\"", "\"* * * * *\"", "\"0 0 31 2 *\""}}
+  {[raw |-> r, expect |-> "4xx"] : r \in {Absent, "null", "\"\"", "123", "\"* * *\"", "\"bogus\"", "\"61 * * * * *\"",
+                                          "\"TZ=UTC\"", "\"CRON_TZ=\"", "\"TZ=Nowhere/Land * * * * *\"", "\"@every\"", "\"@every 1x\"", "\"*/0 * * * *\""}}
+  \cup {[raw |-> r, expect |-> "ok"] : r \in {"\"* * * * * *\"", "\"@every 1s\"", "\"* * * * *\"", "\"0 0 31 2 *\"", "\"TZ=UTC * * * * *\""}}
 TemplateCases ==
   {[raw |-> r, expect |-> "4xx"] : r \in WrongTypeForString \cup {Absent, "null", "\"\""}}
-  \cup {[raw |-> r, expect |-> "ok"] : r \in HostileStrings \cup {"\"{{.id}}.{{.timestamp}}\"", "\"{{.id}}{{.id}}{{.timestamp}}\"", "\"fixed-@SID@\""}}
+  \cup {[raw |-> r, expect |-> "ok"] : r \in HostileStrings \cup {"\"{{.id}}.{{.timestamp}}\"", "\"{{.id}}{{.id}}{{.timestamp}}\"", "\"fixed-@SID@\"",
+                                                             "\"odd.{{.timestamp.unix}}\"", "\"{{index .id 99}}\"", "\"{{.id | printf \\\"%d\\\"}}\""}}
 
 (***************************************************************************)
 (* Steps.                                                                  *)
@@ -100,6 +102,10 @@ Canary(k) ==
      [do |-> "received", name |-> "canary-" \o k, group |-> "canary", id |-> "@SID@", ms |-> 12000,
       until |-> [task |-> "__invoke:canary-" \o k \o "-@SID@"]],
      [do |-> "rows", name |-> "canary-" \o k, ms |-> 12000, until |-> [table |-> "promises", id |-> "canary-" \o k \o "-@SID@", state |-> 16]] >>
+\* ... and the schedule sweep: a schedule created afterwards fires
+CanaryS(k) ==
+  << Http("canary-create", "POST", "/schedules", "{\"id\":\"canary-s-" \o k \o "-@SID@\",\"cron\":\"* * * * * *\",\"promiseId\":\"{{.id}}.{{.timestamp}}\",\"promiseTimeout\":60000}"),
+     [do |-> "rows", name |-> "canary-s-" \o k, ms |-> 14000, until |-> [table |-> "promises", sched |-> "canary-s-" \o k \o "-@SID@"]] >>
 Aftermath(ms) == << Sleep(ms), Probe("after-cycles"), Db >> \o Canary("1") \o << Kill, Start, Probe("after-restart"), Sleep(ms), Probe("after-restart-cycles"), Db >> \o Canary("2")
 
 PromiseFields == << <<"id", "\"@SID@\"">>, <<"timeout", "@NOW+400@">>,
@@ -157,7 +163,7 @@ ScheduleScenarios ==
                \cup {<<"promiseTags", c>> : c \in TagCases} \cup {<<"tags", c>> : c \in ObjCases} \cup {<<"desc", c>> : c \in StrCases(FALSE)}
   IN {[ep |-> "POST /schedules", field |-> x[1], raw |-> x[2].raw, expect |-> x[2].expect,
        steps |-> << Listen, Http("hostile", "POST", "/schedules", Obj(With(ScheduleFields, x[1], x[2].raw))),
-                    Http("read", "GET", "/schedules/s-@SID@", ""), Http("search", "GET", "/schedules?id=*", "") >> \o Aftermath(1700)] : x \in cases}
+                    Http("read", "GET", "/schedules/s-@SID@", ""), Http("search", "GET", "/schedules?id=*", "") >> \o Aftermath(1700) \o CanaryS("1")] : x \in cases}
 
 \* --- locks and tasks
 LockFields == << <<"resourceId", "\"r-@SID@\"">>, <<"executionId", "\"e\"">>, <<"processId", "\"w\"">>, <<"ttl", "200">> >>
@@ -281,6 +287,9 @@ GrpcScenarios ==
       <<"CreatePromiseAndTask", "empty process id", "{\"promise\":{\"id\":\"g-@SID@\",\"timeout\":\"@NOW+500@\",\"tags\":{\"resonate:invoke\":\"w\"}},\"task\":{\"processId\":\"\",\"ttl\":3}}", "ok">>,
       <<"ResolvePromise", "no value", "{\"id\":\"@SID@\"}", "ok">>,
       <<"CreateSchedule", "bad cron", "{\"id\":\"gs-@SID@\",\"cron\":\"bogus\",\"promiseId\":\"x\",\"promiseTimeout\":\"5\"}", "4xx">>,
+      <<"CreateSchedule", "cron with a time zone and nothing else", "{\"id\":\"gs-@SID@\",\"cron\":\"TZ=UTC\",\"promiseId\":\"x\",\"promiseTimeout\":\"5\"}", "4xx">>,
+      <<"CreateSchedule", "empty cron", "{\"id\":\"gs-@SID@\",\"cron\":\"\",\"promiseId\":\"x\",\"promiseTimeout\":\"5\"}", "4xx">>,
+      <<"CreateSchedule", "cron step zero", "{\"id\":\"gs-@SID@\",\"cron\":\"*/0 * * * *\",\"promiseId\":\"x\",\"promiseTimeout\":\"5\"}", "4xx">>,
       <<"CreateSchedule", "broken template", "{\"id\":\"gs-@SID@\",\"cron\":\"* * * * * *\",\"promiseId\":\"{{.id\",\"promiseTimeout\":\"1000\"}", "ok">>,
       <<"CreateSchedule", "routed promise", "{\"id\":\"gs-@SID@\",\"cron\":\"* * * * * *\",\"promiseId\":\"{{.id}}.{{.timestamp}}\",\"promiseTimeout\":\"1000\",\"promiseTags\":{\"resonate:invoke\":\"poll://default/@SID@\"}}", "ok">>,
       <<"CreateSchedule", "empty promise id", "{\"id\":\"gs-@SID@\",\"cron\":\"* * * * * *\",\"promiseId\":\"\",\"promiseTimeout\":\"1000\"}", "ok">>,
